@@ -144,6 +144,19 @@ CHECKS = {
             "Quiescence not reached in 4 s is inconclusive. An injected drift that is never detected (8-bit checksum collision with a lagging "
             "queue tick, or no later update) is counted and not asserted, as the statement speaks of detected drift. Low case counts (real sockets).",
             "model-free system-level property-based testing (rapid) with fault injection and harness-owned schedule points", "DESIGN.md §5 C09"),
+    "C16": ("exploration",
+            "Model-based property-based testing of am-dbg: one headless debugger per process (tcell simulation screen, the real telemetry server on a "
+            "loopback port); per case 1-2 real machines with generated schema, handler table and history (queued, canceled, auto and - with EnableCan - "
+            "check transitions, Exception) stream through the real dbg.Tracer, a recording tracer on each source is the reference. Record N must be the "
+            "N-th traced event (id, ticks, accepted/auto/check/queued flags); parsed data (time sum and diff, states added and removed, descending error "
+            "index) must equal what an independent implementation derives from consecutive records; TxAtQueueTick, TxAtHTime, TxAtMachTime, TxIndex and "
+            "HadErrSinceTx are compared with linear scans for every key on and between records. Generated command sequences on the debugger machine "
+            "(select client + cursor, UserFwd, UserBack, filter toggles): the filtered view must equal the predicate taken from the Filter* states, the "
+            "cursor never rests on a hidden record, forward lands on the next shown record and back returns; an export is imported into a second "
+            "debugger and compared record by record.",
+            "Touched states (from transition steps), step navigation, log rendering and diagrams are not checked. FilterAutoCanceledTx on queued auto "
+            "records is accepted either way. A stream that is still incomplete after 15 s is inconclusive.",
+            "model-based property-based testing (rapid): reference recorder, differential index lookups vs linear scan, stateful navigation, export/import round trip", "DESIGN.md §5 C16"),
     "C17": ("exploration",
             "Model-based property-based testing of pkg/history: generated schema, handler table (vetoes give rejected transitions), history, "
             "tracking configuration (Called/Changed allow or block list, both block lists, TrackRejected, tracked subset, StoreTransitions, MaxRecords "
